@@ -995,7 +995,7 @@ class Gen:
         r = self.rng
         elts = [self.triples(vis)]
         if vis and r.random() < 0.08:
-            # outside that fragment (known finding C04-K3): a filter in a NESTED group, or the condition of an OPTIONAL,
+            # outside that fragment (known finding C04-K4): a filter in a NESTED group, or the condition of an OPTIONAL,
             # that mentions a variable bound outside the EXISTS
             sc = in_scope(["group", elts])
             ov = r.choice(sorted(vis))
